@@ -5,6 +5,8 @@ op <-> AST node comes from the product Ref(ast) x Machine(compiled) (the C01 / C
 """
 from __future__ import annotations
 
+import itertools
+
 import os
 import shutil
 import tempfile
@@ -431,7 +433,7 @@ def run(tier, seed):
 
     def make_cases():
         for style in STYLES:
-            for cid, p in gen_forms.form_programs():
+            for cid, p in itertools.chain(gen_forms.form_programs(), G.cross_programs(seed, compatible_cases=False)):
                 yield cid + (style,), p
             for cid, p in G.programs(G.FULL, 2, 3, seed, G.SECOND_ROUTINES):
                 yield cid + (style,), p
